@@ -112,11 +112,12 @@ var readerNames = []string{"plain", "one-byte", "short-reads", "data+EOF", "zero
 // ---- helpers --------------------------------------------------------------------------
 
 type eng struct {
-	r   *driver.Run
-	c   config
-	R   []string // uninterrupted output (independent graph6 of each value)
-	pre func(*graph.DenseGraph) bool
-	pru func(*graph.DenseGraph) bool
+	disk *chunkWriter
+	r    *driver.Run
+	c    config
+	R    []string // uninterrupted output (independent graph6 of each value)
+	pre  func(*graph.DenseGraph) bool
+	pru  func(*graph.DenseGraph) bool
 }
 
 func (e *eng) newIter() *search.GraphIterator {
@@ -194,13 +195,20 @@ func (e *eng) reference() {
 }
 
 func (e *eng) save(it *search.GraphIterator, who string) []byte {
-	w := &chunkWriter{}
+	// the worker reuses one writer object for all its checkpoints (reset in between), as a
+	// caller holding one buffer or file handle would
+	if e.disk == nil {
+		e.disk = &chunkWriter{}
+	}
+	w := e.disk
+	w.buf.Reset()
+	w.chunks = 0
 	e.r.Must("Save("+who+")", budget, func() { it.Save(w) })
 	if w.chunks > 1 {
 		e.r.Probe("save-in-several-writes")
 	}
 	e.r.Count("checkpoints", 1)
-	return w.buf.Bytes()
+	return append([]byte(nil), w.buf.Bytes()...)
 }
 
 func (e *eng) load(data []byte, mode int, who string) *search.GraphIterator {
